@@ -426,17 +426,35 @@ PPL::Grid::relation_with(const Congruence& cg) const {
   // 'is_included'           every grid point satisfies cg
   // 'is_disjoint'           cg and the grid occupy separate spaces.
   // There is always a point.
-  // Scalar product of the congruence and the first point that
-  // satisfies the congruence.
-  PPL_DIRTY_TEMP_COEFFICIENT(point_sp);
-  point_sp = 0;
 
+  // All the points and parameters in `gen_sys' have the same divisor `d'
+  // (see normalize_divisors()), so that the scalar product of `cg' and
+  // a point (resp., parameter) is `d' times the value taken by the
+  // expression of `cg' on the point (resp., the variation of such a
+  // value along the parameter).  Hence, all the scalar products have
+  // to be considered modulo `d' times the modulus of `cg'.
+
+  // Scalar product of the congruence and the first point.
+  PPL_DIRTY_TEMP_COEFFICIENT(point_sp);
+  // The modulus of `cg', scaled by the divisor of the first point.
+  PPL_DIRTY_TEMP_COEFFICIENT(modulus);
+  for (Grid_Generator_System::const_iterator i = gen_sys.begin(),
+         i_end = gen_sys.end(); i != i_end; ++i) {
+    const Grid_Generator& g = *i;
+    if (g.is_point()) {
+      Scalar_Products::assign(point_sp, cg, g);
+      modulus = cg.modulus() * g.divisor();
+      break;
+    }
+  }
+
+  // The scalar products of `cg' and the grid points are the values
+  // `point_sp + k * div', for all integers `k' (if `div' is zero,
+  // this is the single value `point_sp').
   PPL_DIRTY_TEMP_COEFFICIENT(div);
-  div = cg.modulus();
+  div = modulus;
 
   PPL_DIRTY_TEMP_COEFFICIENT(sp);
-
-  bool known_to_intersect = false;
 
   for (Grid_Generator_System::const_iterator i = gen_sys.begin(),
          i_end = gen_sys.end(); i != i_end; ++i) {
@@ -446,72 +464,15 @@ PPL::Grid::relation_with(const Congruence& cg) const {
     switch (g.type()) {
 
     case Grid_Generator::POINT:
-      if (cg.is_proper_congruence()) {
-        sp %= div;
-      }
-      if (sp == 0) {
-        // The point satisfies the congruence.
-        if (point_sp == 0) {
-          // Any previous points satisfied the congruence.
-          known_to_intersect = true;
-        }
-        else {
-          return Poly_Con_Relation::strictly_intersects();
-        }
-      }
-      else {
-        if (point_sp == 0) {
-          if (known_to_intersect) {
-            return Poly_Con_Relation::strictly_intersects();
-          }
-          // Assign `sp' to `point_sp' as `sp' is the scalar product
-          // of cg and a point g and is non-zero.
-          point_sp = sp;
-        }
-        else {
-          // A previously considered point p failed to satisfy cg such that
-          // `point_sp' = `scalar_prod(p, cg)'
-          // so, if we consider the parameter g-p instead of g, we have
-          // scalar_prod(g-p, cg) = scalar_prod(g, cg) - scalar_prod(p, cg)
-          //                      = sp - point_sp
-          sp -= point_sp;
-
-          if (sp != 0) {
-            // Find the GCD between sp and the previous GCD.
-            gcd_assign(div, div, sp);
-            if (point_sp % div == 0) {
-              // There is a point in the grid satisfying cg.
-              return Poly_Con_Relation::strictly_intersects();
-            }
-          }
-        }
-      }
-      break;
+      // If we consider the parameter g-p instead of g, where p is the
+      // first point, we have
+      // scalar_prod(g-p, cg) = scalar_prod(g, cg) - scalar_prod(p, cg).
+      sp -= point_sp;
+      FALLTHROUGH;
+      // Fall through.
 
     case Grid_Generator::PARAMETER:
-      if (cg.is_proper_congruence()) {
-        sp %= (div * g.divisor());
-      }
-      if (sp == 0) {
-        // Parameter g satisfies the cg so the relation depends
-        // entirely on the other generators.
-        break;
-      }
-      if (known_to_intersect) {
-        // At least one point satisfies cg.  However, the sum of such
-        // a point and the parameter g fails to satisfy cg (due to g).
-        return Poly_Con_Relation::strictly_intersects();
-      }
-      // Find the GCD between sp and the previous GCD.
       gcd_assign(div, div, sp);
-      if (point_sp != 0) {
-        // At least one of any previously encountered points fails to
-        // satisfy cg.
-        if (point_sp % div == 0) {
-          // There is also a grid point that satisfies cg.
-          return Poly_Con_Relation::strictly_intersects();
-        }
-      }
       break;
 
     case Grid_Generator::LINE:
@@ -537,20 +498,28 @@ PPL::Grid::relation_with(const Congruence& cg) const {
     }
   }
 
-  if (point_sp == 0) {
-    if (cg.is_equality()) {
-      // Every generator satisfied the cg.
+  if (div == 0) {
+    // `cg' is an equality and its expression takes the same value
+    // on all the grid points.
+    if (point_sp == 0) {
       return Poly_Con_Relation::is_included()
         && Poly_Con_Relation::saturates();
     }
-    else {
-      // Every generator satisfied the cg.
-      return Poly_Con_Relation::is_included();
-    }
+    return Poly_Con_Relation::is_disjoint();
   }
 
-  PPL_ASSERT(!known_to_intersect);
-  return Poly_Con_Relation::is_disjoint();
+  if (point_sp % div != 0) {
+    // No grid point satisfies cg.
+    return Poly_Con_Relation::is_disjoint();
+  }
+
+  // Here some of the grid points satisfy cg.
+  if (cg.is_proper_congruence() && div == modulus) {
+    // All the parameters satisfy cg, hence all the grid points do.
+    return Poly_Con_Relation::is_included();
+  }
+
+  return Poly_Con_Relation::strictly_intersects();
 }
 
 PPL::Poly_Gen_Relation
